@@ -571,3 +571,45 @@ func SortedCopyInts(v []int) []int {
 	sort.Ints(o)
 	return o
 }
+
+// UpperCaseEnum applies the built-in "ToUpper" in place to one enum column whose distinct values stay distinct when
+// upper-cased (so that the result is an ordinary enum). Returns the input frame when no column qualifies.
+func UpperCaseEnum(rng *rand.Rand, qf qframe.QFrame, sh *Frame, meta Meta) (qframe.QFrame, string) {
+	for _, p := range rng.Perm(len(sh.Cols)) {
+		col := sh.Cols[p]
+		if col.Kind != KEnum {
+			continue
+		}
+		seen := map[string]string{}
+		ok := true
+		vals := map[string]bool{}
+		for _, s := range col.S {
+			if s != nil {
+				vals[*s] = true
+			}
+		}
+		if col.EnumKnown {
+			for _, v := range col.EnumVals {
+				vals[v] = true
+			}
+		}
+		for v := range vals {
+			u := strings.ToUpper(v)
+			if o, dup := seen[u]; dup && o != v {
+				ok = false
+				break
+			}
+			seen[u] = v
+		}
+		if !ok || len(vals) == 0 {
+			continue
+		}
+		var out qframe.QFrame
+		if pv, _ := fw.Guard(func() { out = qf.Apply(qframe.Instruction{Fn: "ToUpper", DstCol: col.Name, SrcCol1: col.Name}) }); pv != nil || out.Err != nil {
+			continue
+		}
+		delete(meta, col.Name)
+		return out, fmt.Sprintf("Apply(ToUpper %q in place)", col.Name)
+	}
+	return qf, ""
+}
